@@ -128,4 +128,37 @@ theorem runLegal_spec (c : Cfg) : ∀ (legal : List TEv) (s : St), (∀ e ∈ le
     rw [i1, i2, i3, i4, h1, h2]
     simp [List.append_assoc]
 
+theorem cbTrace_mem (c : Cfg) (calls : Cb → Nat) (t : Nat) (cb : Cb) (args : List Arg) (x : Nat × Ev)
+    (h : x ∈ cbTrace c calls t cb args) : (∃ a, x.2 = .cb cb a) ∨ (∃ a, x.2 = .cb .onError a) := by
+  unfold cbTrace at h
+  split at h
+  · simp at h
+  · split at h
+    · simp only [List.mem_cons, List.not_mem_nil, or_false] at h
+      rcases h with rfl | rfl
+      · exact Or.inl ⟨_, rfl⟩
+      · exact Or.inr ⟨_, rfl⟩
+    · simp only [List.mem_cons, List.not_mem_nil, or_false] at h
+      subst h; exact Or.inl ⟨_, rfl⟩
+
+theorem expectedDeliveries_term (has : Cb → Bool) (t0 : Nat) (legal : List TEv) (te : TEv)
+    (hleg : ∀ e ∈ legal, isLegal e.ev = true) (hterm : isTerm te.ev = true) :
+    Spec.AppTrace.expectedDeliveries has t0 (legal ++ [te]) = Spec.AppTrace.expectedDeliveries has t0 legal := by
+  induction legal generalizing t0 with
+  | nil =>
+    have : Spec.AppTrace.isTerminator te.ev = true := by
+      cases h : te.ev <;> simp_all [isTerm, Spec.AppTrace.isTerminator]
+    simp [expectedDeliveries, this]
+  | cons e l ih =>
+    have hl := hleg e (by simp)
+    simp only [List.cons_append, expectedDeliveries, legal_not_term hl, Bool.false_eq_true, ↓reduceIte]
+    rw [ih _ (fun x hx => hleg x (by simp [hx]))]
+
+/-- callbacks of the state in which the loop is entered = callbacks so far ++ the opening callback -/
+theorem enterLoop_cb (c : Cfg) (s0 : St) (evs : List TEv) (ds : List Dial) :
+    cbOnly (enterLoop c s0 evs ds).trace = cbOnly s0.trace ++ cbTrace c s0.calls s0.now .onOpen [] := by
+  simp only [enterLoop, cbOnly_append, cbOnly_cbTrace]
+  simp [cbOnly]
+
+
 end WS.Lemmas.App
